@@ -628,9 +628,20 @@ func (g *commonGen) template(w *World, name string, b int) []Step {
 				t = i
 			}
 		}
-		again := &SecretRef{Kind: "totp", A: a}
+		again := &SecretRef{Kind: "totp_again", A: a}
 		if g.r.Bool() {
 			again.Mut = []string{"suffix: ", "prefix: ", "suffix:\t", "suffix:\n"}[g.r.Intn(4)]
+		}
+		// the replay arrives at once or later, while the code is still within
+		// the verifier's tolerance (the same period, or the next one)
+		gap := []time.Duration{0, 0, 9 * time.Second, 29 * time.Second, 31 * time.Second, 45 * time.Second}[g.r.Intn(6)]
+		tail := func(a int) []Step {
+			out := []Step{{Kind: "drop_session", B: b}, {Kind: "login", B: b, A: a, Sec: pw(a), Gap: gap}}
+			if g.r.Chance(1, 3) {
+				// a refused submission in between does not make the used code fresh
+				out = append(out, Step{Kind: "totp_validate", B: b, A: a, Sec: &SecretRef{Kind: "literal", Lit: fmt.Sprintf("%06d", g.r.Intn(1000000))}})
+			}
+			return append(out, Step{Kind: "totp_validate", B: b, A: a, Sec: again})
 		}
 		if t < 0 || g.r.Chance(1, 3) {
 			for i := range w.Accts {
@@ -639,14 +650,12 @@ func (g *commonGen) template(w *World, name string, b int) []Step {
 				}
 			}
 			again.A = a
-			return []Step{{Kind: "drop_session", B: b}, {Kind: "login", B: b, A: a, Sec: pw(a)}, {Kind: "totp_setup", B: b, A: a},
-				{Kind: "totp_confirm", B: b, A: a, Sec: &SecretRef{Kind: "totp_pending", A: b}}, {Kind: "drop_session", B: b},
-				{Kind: "login", B: b, A: a, Sec: pw(a)}, {Kind: "totp_validate", B: b, A: a, Sec: again}}
+			return append([]Step{{Kind: "drop_session", B: b}, {Kind: "login", B: b, A: a, Sec: pw(a)}, {Kind: "totp_setup", B: b, A: a},
+				{Kind: "totp_confirm", B: b, A: a, Sec: &SecretRef{Kind: "totp_pending", A: b}}}, tail(a)...)
 		}
 		a = t
 		again.A = a
-		return []Step{{Kind: "drop_session", B: b}, {Kind: "login", B: b, A: a, Sec: pw(a)}, {Kind: "totp_validate", B: b, A: a, Sec: &SecretRef{Kind: "totp", A: a}},
-			{Kind: "drop_session", B: b}, {Kind: "login", B: b, A: a, Sec: pw(a)}, {Kind: "totp_validate", B: b, A: a, Sec: again}}
+		return append([]Step{{Kind: "drop_session", B: b}, {Kind: "login", B: b, A: a, Sec: pw(a)}, {Kind: "totp_validate", B: b, A: a, Sec: &SecretRef{Kind: "totp", A: a}}}, tail(a)...)
 	case "second_factor_enrol":
 		// an account that already has one factor (and so recovery codes) logs in
 		// fully and enrols the other kind, proving it with the right code or
